@@ -260,6 +260,18 @@ func runC14(c *Ctx) {
 				prog = append(prog, map[string]interface{}{"k": "SetKey", "v": r.Intn(9)})
 			}
 		}
-		c.Call(Event{"op": "BuilderHist", "p0": []int{0, 5, 19, 32, 40}[r.Intn(5)], "m0": []int64{0, 10, 784931, 1 << 33}[r.Intn(4)], "prog": prog})
+		ctors := []string{"KeyPM", "KeyPNM", "Key", "KeyHashPM", "KeyHashPNM", "KeyHash", "RandomKeyPM", "RandomKeyPNM", "RandomKey"}
+		if k%2 == 0 { // the less used ways in: lists of entries, keys from hashes, size hints
+			switch r.Intn(3) {
+			case 0:
+				prog = append(prog, map[string]interface{}{"k": "AddEntries", "items": []interface{}{ints([]byte{byte(r.Intn(4))}), ints([]byte{9, byte(r.Intn(3))}), ints([]byte{byte(r.Intn(4))})}})
+			case 1:
+				prog = append(prog, map[string]interface{}{"k": "SetKeyFromHash", "v": r.Intn(200)})
+			case 2:
+				prog = append(prog, map[string]interface{}{"k": "Preallocate", "v": []int{0, 1, 1000}[r.Intn(3)]})
+			}
+			r.Shuffle(len(prog), func(i, j int) { prog[i], prog[j] = prog[j], prog[i] })
+		}
+		c.Call(Event{"op": "BuilderHist", "ctor": ctors[k%len(ctors)], "n0": []int{0, 1, 5000}[r.Intn(3)], "p0": []int{0, 5, 19, 32, 40}[r.Intn(5)], "m0": []int64{0, 10, 784931, 1 << 33}[r.Intn(4)], "prog": prog})
 	}
 }
